@@ -226,13 +226,19 @@ fn miri_c18(args: &BatchArgs) -> (serde_json::Value, Option<String>, Option<Stri
         Ok(o) => {
             let text = format!("{}\n{}", String::from_utf8_lossy(&o.stdout), String::from_utf8_lossy(&o.stderr));
             let tried = text.matches("Trying seed").count();
-            let ub = text.contains("Undefined Behavior") || text.contains("panicked at");
+            // a verdict only for what C18 is about: a data race reported by Miri, or an assertion
+            // of the scenario itself (src/main.rs) failing. Anything else that goes wrong (other
+            // kinds of UB, a panic of cargo / rustc / a build script) is a harness error.
+            let ub = text.contains("Undefined Behavior: Data race") || text.contains("Data race detected") || text.contains("panicked at src/main.rs");
+            let other_trouble = !ub && (text.contains("Undefined Behavior") || text.contains("panicked at"));
             let j = serde_json::json!({"tool": "cargo +nightly miri run (-Zmiri-many-seeds, -Zmiri-preemption-rate=0.1)", "scenario": "miri-c18/src/main.rs: 2 racing setters + 2 readers on the unhooked SingletonHolder", "seed_range": [start, start + n], "seeds_tried": tried, "wall_s": wall, "exit": o.status.code(), "undefined_behaviour_or_assertion": ub});
             if ub {
                 let path = verif_root().join("replays").join(format!("C18-miri-{start}.txt"));
                 let _ = std::fs::create_dir_all(path.parent().unwrap());
                 let _ = std::fs::write(&path, format!("reproduce: cd /verif/miri-c18 && MIRIFLAGS='-Zmiri-many-seeds={start}..{} -Zmiri-preemption-rate=0.1' cargo +nightly miri run --offline\n\n{}", start + n, text));
                 (j, Some(path.to_string_lossy().into_owned()), None)
+            } else if other_trouble {
+                (j, None, Some(format!("cargo miri reported trouble that is not a data race on the holder nor a failed assertion of the scenario: {}", text.chars().rev().take(600).collect::<String>().chars().rev().collect::<String>())))
             } else if !o.status.success() {
                 (j, None, Some(format!("cargo miri failed without reporting UB: {}", text.chars().rev().take(400).collect::<String>().chars().rev().collect::<String>())))
             } else {
